@@ -503,6 +503,29 @@ def build_ops(plan, workdir):
             if p == plan["rich"][v][0] or not quick:
                 ops.append(("decode-rich:%s:%s" % (v, os.path.basename(p).split("-")[0]), op_decode(p)))
     ops.append(("disasm-bigline:host:classic", op_disasm(plan["bigline"], "classic")))
+    if not quick:
+        # thorough: one file of *every* corpus family through load / classic / extended, and every (version, variant)
+        # table the library knows through both table getters
+        for d in sorted(glob.glob(os.path.join(test, "bytecode_*"))):
+            fam = os.path.basename(d)[9:]
+            fs = sorted((os.path.getsize(f), f) for f in glob.glob(os.path.join(d, "*.pyc")) if 100 <= os.path.getsize(f) <= 4000)
+            if not fs or "dropbox" in fam:
+                continue
+            f = fs[len(fs) // 2][1]
+            ops.append(("fam-load:" + fam, op_load(f)))
+            ops.append(("fam-disasm:%s:classic" % fam, op_disasm(f, "classic")))
+            ops.append(("fam-disasm:%s:extended" % fam, op_disasm(f, "extended")))
+        for vt, pypy in (((1, 0), False), ((1, 3), False), ((1, 4), False), ((1, 6), False), ((2, 0), False), ((2, 1), False), ((2, 2), False), ((2, 3), False),
+                         ((2, 5), False), ((2, 6), False), ((2, 6), True), ((3, 0), False), ((3, 1), False), ((3, 2), False), ((3, 2), True), ((3, 3), False),
+                         ((3, 3), True), ((3, 4), False), ((3, 5), False), ((3, 5), True), ((3, 6), True), ((3, 7), False), ((3, 7), True), ((3, 9), False),
+                         ((3, 9), True), ((3, 10), True), ((3, 11), False)):
+            ops.append(("get_opcode:%d.%d%s" % (vt[0], vt[1], "pypy" if pypy else ""), op_get_opcode(vt, pypy)))
+        for vt in ((3, 6), (3, 9), (3, 10)):
+            ops.append(("get_opcode_module:%d.%dpypy" % vt, op_get_opcode_module(vt, "pypy")))
+            ops.append(("make_std_api:%d.%dpypy" % vt, op_std_api(vt, "pypy")))
+            ops.append(("make_std_api:%d.%d" % vt, op_std_api(vt)))
+        seen_names = set()
+        ops = [o for o in ops if not (o[0] in seen_names or seen_names.add(o[0]))]
     # same version, different variant (CPython / PyPy tables share a version tuple): extended listings of both
     for fam, pat in (("2.7pypy", "bytecode_2.7pypy/*.pyc"), ("pypy37", "bytecode_pypy37/*.pyc"), ("3.7", "bytecode_3.7/*.pyc"),
                      ("pypy38", "bytecode_pypy38/*.pyc"), ("pypy36", "bytecode_pypy36/*.pyc"), ("3.6", "bytecode_3.6/*.pyc")):
